@@ -301,12 +301,13 @@ class Flags:
         self.why = None
         self.count = 0
 
-    def cmp_le(self, a, b, exact_ctx, what=""):
-        """exact a <= b ; flags when a float evaluation of the same comparison could differ."""
+    def cmp_le(self, a, b, exact_ctx, what="", scale=None):
+        """exact a <= b ; flags when a float evaluation of the same comparison could differ (difference within
+        2^-40 of `scale`, default max(|a|,|b|))."""
         if a == b:
             if not exact_ctx:
                 self._flag(what + " equality with inexact float intermediates")
-        elif abs(a - b) <= SLACK * max(abs(a), abs(b)):
+        elif abs(a - b) <= SLACK * (max(abs(a), abs(b)) if scale is None else scale):
             self._flag(what + " within 2^-40")
         return a <= b
 
@@ -1036,17 +1037,893 @@ def _chunk_worker(args):
 def run_cases(cases, use_lean=True, procs=None, chunk=40):
     import multiprocessing as mp
     procs = procs or int(os.environ.get("VERIF_PROCS", "0")) or 6
-    chunks = [(i, cases[i:i + chunk], use_lean) for i in range(0, len(cases), chunk)]
+    nch = max(1, (len(cases) + chunk - 1) // chunk)
+    # strided chunks: every chunk gets the same mix of cheap and expensive families
+    chunks = [(i, cases[i::nch], use_lean) for i in range(nch)]
     if procs <= 1 or len(chunks) <= 1:
         res = [_chunk_worker(a) for a in chunks]
     else:
         with mp.get_context("fork").Pool(min(procs, len(chunks))) as pool:
             res = pool.map(_chunk_worker, chunks, chunksize=1)
-    out = []
-    for _, recs in sorted(res, key=lambda x: x[0]):
-        out += recs
+    out = [None] * len(cases)
+    for i, recs in res:
+        out[i::nch] = recs
     return out
 
 
+
+# ------------------------------------------------------------------------------------------------------------------
+# Lattice iCE40
+# ------------------------------------------------------------------------------------------------------------------
+
+class Ice40:
+    fam = "ice40"
+    FILTER = [(17e6, 1), (26e6, 2), (44e6, 3), (66e6, 4), (101e6, 5), (133e6, 6)]
+
+    def __init__(self, T):
+        self.d = T["ice40"]
+
+    def lean_line(self, c):
+        f, m = c["out"]
+        return "ice40 %s %s 0 1 %s" % (qs(c["clkin"]), qs(f), qs(m))
+
+    def real(self, c):
+        from migen import Signal
+        from litex.soc.cores.clock.lattice_ice40 import iCE40PLL
+        try:
+            o = iCE40PLL(primitive=c.get("prim", "SB_PLL40_CORE"))
+            o.register_clkin(Signal(), c["clkin"])
+            o.create_clkout(mk_cd(0), c["out"][0], margin=c["out"][1], with_reset=False)
+            cfg = finalize_capture(o)
+        except Exception as e:
+            return {"status": status_of(e), "exc": repr(e)}
+        P = instance_params(o, ("SB_PLL40_CORE", "SB_PLL40_PAD")) or {}
+        return {"status": "ok", "divr": cfg["divr"], "divf": cfg["divf"], "divq": cfg["divq"], "vco": F(cfg["vco"]),
+                "freq": F(cfg["clkout_freq"]),
+                "P": {k: P.get(k) for k in ("DIVR", "DIVF", "DIVQ", "FILTER_RANGE", "FEEDBACK_PATH")}}
+
+    def parse(self, c, line):
+        if line == "none":
+            return {"status": "rejected"}
+        w = line.split()
+        return {"status": "ok", "divr": int(w[1]), "divf": int(w[2]), "divq": int(w[3]), "vco": F(int(w[4]), int(w[5])),
+                "filter": int(w[6])}
+
+    def compare(self, c, real, model):
+        if real["status"] != model["status"]:
+            return "status real=%s model=%s" % (real["status"], model["status"])
+        if real["status"] != "ok":
+            return None
+        for k in ("divr", "divf", "divq"):
+            if real[k] != model[k]:
+                return "%s real=%s model=%s" % (k, real[k], model[k])
+        if not rel_close(real["vco"], model["vco"]):
+            return "vco"
+        P = real["P"]
+        if (P["DIVR"], P["DIVF"], P["DIVQ"], P["FILTER_RANGE"]) != (model["divr"], model["divf"], model["divq"], model["filter"]):
+            return "instance parameters real=%s model=%s" % (P, model)
+        return None
+
+    def first_key(self, real):
+        return (real["divr"], real["divf"])
+
+    def oracle(self, c, real):
+        d = self.d
+        clkin = F(c["clkin"])
+        f, m = F(c["out"][0]), F(c["out"][1])
+        vmin, vmax = d["vco"]
+        fl = Flags()
+        first, robust = None, None
+        for divr in range(*d["divr"]):
+            exact_ctx = is_int(clkin) and int(clkin) % (divr + 1) == 0 and is_int(f)
+            for divf in range(*d["divf"]):
+                vco = clkin / (divr + 1) * (divf + 1)
+                if first is None:
+                    in_win = fl.cmp_le(vmin, vco, exact_ctx, "vco>=min") and fl.cmp_le(vco, vmax, exact_ctx, "vco<=max")
+                else:
+                    in_win = vmin <= vco <= vmax
+                if not in_win:
+                    continue
+                ok = rob = False
+                for q in range(*d["divq"]):
+                    diff = abs(vco / 2 ** q - f)
+                    if first is None:
+                        good = fl.cmp_le(diff, f * m, exact_ctx and m == 0, "margin", scale=f)
+                    else:
+                        good = diff <= f * m
+                    ok = ok or good
+                    if diff <= f * m - SLACK * f or (diff == 0 and exact_ctx):
+                        rob = True
+                if rob and vmin * (1 + SLACK) <= vco <= vmax * (1 - SLACK) and robust is None:
+                    robust = (divr, divf)
+                if ok and first is None:
+                    first = (divr, divf)
+                if first is not None and (robust is not None or real["status"] == "ok"):
+                    break
+            if first is not None and (robust is not None or real["status"] == "ok"):
+                break
+        viol = []
+        if real["status"] == "ok":
+            divr, divf, divq = real["divr"], real["divf"], real["divq"]
+            for nm, v, r in (("divr", divr, d["divr"]), ("divf", divf, d["divf"]), ("divq", divq, d["divq"])):
+                if not (r[0] <= v < r[1]):
+                    viol.append("%s %s outside declared range" % (nm, v))
+            vco = clkin / (divr + 1) * (divf + 1)
+            if not (vmin * (1 - SLACK) <= vco <= vmax * (1 + SLACK)):
+                viol.append("VCO %s Hz outside declared range" % float(vco))
+            if not rel_close(vco, real["vco"]):
+                viol.append("reported vco differs from clkin/(divr+1)*(divf+1)")
+            if not (abs(vco / 2 ** divq - f) <= f * m + SLACK * f):
+                viol.append("output %s Hz vs requested %s Hz margin %s" % (float(vco / 2 ** divq), float(f), float(m)))
+            P = real["P"]
+            pfd = clkin / (divr + 1)
+            want = next((v for t, v in self.FILTER if pfd < F(t)), None)
+            if (P["DIVR"], P["DIVF"], P["DIVQ"]) != (divr, divf, divq) or P["FILTER_RANGE"] != want:
+                viol.append("instance parameters %s do not equal the configuration (filter range %s)" % (P, want))
+        elif real["status"] == "rejected":
+            if robust is not None:
+                viol.append("refused although divr=%s divf=%s satisfies the request" % robust)
+        else:
+            viol.append("unexpected exception " + real.get("exc", ""))
+        return viol, fl.borderline, fl.why, first
+
+    def gen(self, rng):
+        d = self.d
+        clkin = gen_clkin(rng, 10e6, 132e6)          # PFD >= 133 MHz: do_finalize leaves filter_range unbound (reported)
+        m = rng.choice([0, 1e-6, 1e-3, 1e-2])
+        r = rng.random()
+        if r < 0.85:
+            divr = rng.choice([0, 0, 0, 1, 2, 3, rng.randrange(16)])
+            pfd = F(clkin) / (divr + 1)
+            lo, hi = math.ceil(d["vco"][0] / pfd), math.floor(d["vco"][1] / pfd)
+            if lo <= hi and lo <= 128:
+                vco = pfd * rng.randrange(lo, min(hi, 128) + 1)
+                fq = vco / 2 ** rng.randrange(0, 7)
+                u = rng.choice([0, 0, 0, 0.5, -0.5, 0.9, -0.9, 1, -1, 1.001, -1.001])
+                if m == 0 and not is_int(fq):
+                    m = 1e-6
+                f = float(fq * (1 + F(u) * F(m)))
+                if m != 0 and abs(u) <= 0.9 and rng.random() < 0.5:
+                    f = float(round(f))
+            else:
+                f = 48e6
+        else:
+            f = rng.choice([16e6, 24e6, 48e6, 50e6, 100e6, 133.333e6, float(rng.randrange(16_000_000, 275_000_000))])
+        f = max(f, 16e6)
+        return {"fam": "ice40", "clkin": clkin, "out": (f, m), "prim": rng.choice(["SB_PLL40_CORE", "SB_PLL40_PAD"])}
+
+
+# ------------------------------------------------------------------------------------------------------------------
+# Lattice NX  (NXPLL + NXOSCA.compute_divisor)
+# ------------------------------------------------------------------------------------------------------------------
+
+class Nx:
+    fam = "nx"
+    N2L = {0: "P", 1: "S", 2: "S2", 3: "S3", 4: "S4"}
+
+    def __init__(self, T):
+        self.d = T["nx"]
+
+    def lean_line(self, c):
+        outs = " ".join("%s %s %s" % (qs(f), qs(p), qs(m)) for f, p, m in c["outs"])
+        return "nx %s %d %s" % (qs(c["clkin"]), len(c["outs"]), outs)
+
+    def real(self, c):
+        from migen import Signal
+        from litex.soc.cores.clock.lattice_nx import NXPLL
+        try:
+            with quiet():
+                o = NXPLL()
+            o.register_clkin(Signal(), c["clkin"])
+            for i, (f, p, m) in enumerate(c["outs"]):
+                o.create_clkout(mk_cd(i), f, phase=p, margin=m)
+            if c.get("finalize"):
+                cfg = finalize_capture(o)
+            else:
+                cfg = o.compute_config()
+        except Exception as e:
+            return {"status": status_of(e), "exc": repr(e)}
+        r = {"status": "ok", "clki": cfg["clki_div"], "fb": cfg["clkfb_div"], "vco": F(cfg["vco"]),
+             "divs": [cfg["clko%d_div" % n] for n in range(len(c["outs"]))], "P": None}
+        if c.get("finalize"):
+            P = instance_params(o, ("PLL",)) or {}
+            per = []
+            for n in range(len(c["outs"])):
+                l = chr(65 + n)
+                per.append((P.get("DIV" + l), P.get("DEL" + l), P.get("PHI" + l), P.get("ENCLK_CLKO" + self.N2L[n])))
+            r["P"] = {"REF_MMD_DIG": P.get("REF_MMD_DIG"), "DIVF": P.get("DIVF"), "DELF": P.get("DELF"),
+                      "FBK_MMD_DIG": P.get("FBK_MMD_DIG"), "SEL_FBK": P.get("SEL_FBK"), "per": per}
+        return r
+
+    def parse(self, c, line):
+        if line == "none":
+            return {"status": "rejected"}
+        w = line.split()
+        clki, fb = int(w[1]), int(w[2])
+        vco = F(int(w[3]), int(w[4]))
+        ref, divf, k = int(w[5]), int(w[6]), int(w[7])
+        per = [(int(w[8 + 3 * i]), int(w[9 + 3 * i]), int(w[10 + 3 * i])) for i in range(k)]
+        return {"status": "ok", "clki": clki, "fb": fb, "vco": vco, "divs": [x[0] for x in per], "ref": ref, "divf": divf,
+                "per": per}
+
+    def compare(self, c, real, model):
+        if real["status"] != model["status"]:
+            return "status real=%s model=%s" % (real["status"], model["status"])
+        if real["status"] != "ok":
+            return None
+        for k in ("clki", "fb", "divs"):
+            if real[k] != model[k]:
+                return "%s real=%s model=%s" % (k, real[k], model[k])
+        if not rel_close(real["vco"], model["vco"]):
+            return "vco"
+        P = real["P"]
+        if P is not None:
+            mine = (str(model["ref"]), str(model["divf"]), [(str(dx), str(dl)) for _, dx, dl in model["per"]])
+            theirs = (P["REF_MMD_DIG"], P["DIVF"], [(x[0], x[1]) for x in P["per"]])
+            if mine != theirs:
+                return "instance parameters real=%s model=%s" % (theirs, mine)
+        return None
+
+    def first_key(self, real):
+        return (real["clki"], real["fb"])
+
+    def oracle(self, c, real):
+        d = self.d
+        clkin = F(c["clkin"])
+        outs = [(F(f), F(p), F(m)) for f, p, m in c["outs"]]
+        vmin, vmax = d["vco"]
+        pmin, pmax = d["pfd"]
+        olo, ohi = d["clko"]
+        fl = Flags()
+        first, robust = None, None
+        need_robust = real["status"] != "ok"
+        for clki in range(*d["clki"]):
+            exact_ctx = is_int(clkin) and int(clkin) % clki == 0 and all(is_int(f) for f, _, _ in outs)
+            pfd = clkin / clki
+            pfd_rob = pmin * (1 + SLACK) <= pfd <= pmax * (1 - SLACK)
+            kmin, kmax = math.ceil(vmin / pfd), math.floor(vmax / pfd)
+            for fb in range(max(d["clkfb"][0], kmin - 1), min(d["clkfb"][1] - 1, kmax + 1) + 1):
+                vco = pfd * fb
+                if first is None:
+                    in_win = fl.cmp_le(vmin, vco, exact_ctx, "vco>=min") and fl.cmp_le(vco, vmax, exact_ctx, "vco<=max")
+                else:
+                    in_win = vmin <= vco <= vmax
+                if not in_win:
+                    continue
+                all_ok, all_rob = True, vmin * (1 + SLACK) <= vco <= vmax * (1 - SLACK) and pfd_rob
+                for n, (f, p, m) in enumerate(outs):
+                    dlo, dhi = divider_window(vco, f, m)
+                    nflag = fl.count
+                    g = max(olo, math.ceil(dlo))
+                    ok_n = g < ohi and (dhi is None or g <= dhi)
+                    if first is None:
+                        for x in {math.floor(dlo), math.ceil(dlo)} | ({math.floor(dhi), math.ceil(dhi)} if dhi is not None else set()):
+                            if olo <= x < ohi:
+                                for t in (dlo, dhi):
+                                    if t is None:
+                                        continue
+                                    if x == t:
+                                        if not exact_ctx or m != 0:
+                                            fl._flag("divider on a margin edge")
+                                    elif abs(x - t) <= SLACK * t:
+                                        fl._flag("divider within 2^-40 of a margin edge")
+                    g2 = max(olo, math.ceil(dlo * (1 + SLACK)))
+                    rob_n = g2 < ohi and (dhi is None or g2 <= dhi * (1 - SLACK))
+                    if not rob_n and m == 0 and exact_ctx and ok_n and g == dlo:
+                        rob_n = True
+                    all_ok = all_ok and ok_n
+                    all_rob = all_rob and rob_n
+                    if not ok_n and nflag == fl.count:
+                        break
+                if all_ok and first is None:
+                    first = (clki, fb)
+                if all_rob and robust is None:
+                    robust = (clki, fb)
+                if first is not None and (not need_robust or robust is not None):
+                    break
+            if first is not None and (not need_robust or robust is not None):
+                break
+        viol = []
+        region = None
+        if real["status"] == "ok":
+            clki, fb, divs = real["clki"], real["fb"], real["divs"]
+            if not (d["clki"][0] <= clki < d["clki"][1]):
+                viol.append("clki_div %s outside declared range" % clki)
+            if not (d["clkfb"][0] <= fb < d["clkfb"][1]):
+                viol.append("clkfb_div %s outside declared range" % fb)
+            for n, dv in enumerate(divs):
+                if not (olo <= dv < ohi):
+                    viol.append("clko%d_div %s outside declared range" % (n, dv))
+            pfd = clkin / clki
+            vco = pfd * fb
+            if not (vmin * (1 - SLACK) <= vco <= vmax * (1 + SLACK)):
+                viol.append("VCO %s Hz outside declared range" % float(vco))
+            if not rel_close(vco, real["vco"]):
+                viol.append("reported vco differs from clkin/clki_div*clkfb_div")
+            for n, (f, p, m) in enumerate(outs):
+                if divs[n] > 0 and not (abs(vco / divs[n] - f) <= f * m + SLACK * f):
+                    viol.append("clko%d: %s Hz vs requested %s Hz margin %s" % (n, float(vco / divs[n]), float(f), float(m)))
+            if not (pmin * (1 - SLACK) <= pfd <= pmax * (1 + SLACK)):
+                region = "C20-nx-pfd-range-unchecked"          # PFD (vco_in_freq_range) violated: open finding
+            P = real["P"]
+            if P is not None:
+                if P["DIVF"] != str(fb - 1) or P["FBK_MMD_DIG"] != "1" or P["SEL_FBK"] != "FBKCLK5":
+                    viol.append("feedback parameters %s do not equal clkfb_div %s" % (P, fb))
+                for n, (dx, dl, phi, en) in enumerate(P["per"]):
+                    want_del = int((1 + outs[n][1] / 360) * divs[n]) - 1
+                    if dx != str(divs[n] - 1) or dl != str(want_del) or en != "ENABLED":
+                        viol.append("CLKO%s DIV/DEL = %s/%s for div %s phase %s" % (self.N2L[n], dx, dl, divs[n], float(outs[n][1])))
+                if P["REF_MMD_DIG"] != str(clki):
+                    region = region or "C20-nx-clki-div-not-placed"   # input divider not placed: open finding
+        elif real["status"] == "rejected":
+            if robust is not None:
+                viol.append("refused although clki=%s clkfb_div=%s satisfies the request" % robust)
+        else:
+            viol.append("unexpected exception " + real.get("exc", ""))
+        if viol:
+            region = None          # anything beyond the two listed findings is reported
+        return viol, fl.borderline, fl.why, first, region
+
+    def gen(self, rng):
+        d = self.d
+        clkin = gen_clkin(rng, float(d["clki_freq"][0]), float(d["clki_freq"][1]))
+        k = rng.choice([1, 1, 2, 2, 3, 4, 5])
+        vco = None
+        for _ in range(60):
+            clki = rng.choice([1, 1, 1, 1, 2, 3, 4, rng.randrange(1, 20)])
+            pfd = F(clkin) / clki
+            lo, hi = math.ceil(d["vco"][0] / pfd), min(128, math.floor(d["vco"][1] / pfd))
+            if lo <= hi:
+                vco = pfd * rng.randrange(lo, hi + 1)
+                break
+        r = rng.random()
+        kind = "sat" if r < 0.82 else "edge" if r < 0.92 else "any"
+        edge_at = rng.randrange(k)
+        flo, fhi = d["clko_freq"]
+        outs = []
+        for n in range(k):
+            m = rng.choice([0, 1e-6, 1e-3, 1e-2])
+            p = rng.choice([0, 0, 0, 90, 180, 270, 45, 22.5, 135.0, 225])
+            if vco is not None and (kind != "any" or rng.random() < 0.5):
+                dv = rng.choice([rng.randrange(1, 129), rng.randrange(1, 17), rng.randrange(2, 9)])
+                while vco / dv > fhi:
+                    dv += 1
+                f = vco / dv
+                if kind == "edge" and n == edge_at:
+                    u = rng.choice([1, -1, 1.001, -1.001, 0.9999, -0.9999, 2.5, -2.5])
+                else:
+                    u = rng.choice([0, 0, 0, 0.5, -0.5, 0.9, -0.9])
+                if m == 0 and not is_int(f) and rng.random() < 0.9:
+                    m = 1e-6
+                f = float(f * (1 + F(u) * F(m)))
+                if m != 0 and abs(u) <= 0.9 and rng.random() < 0.6:
+                    f = float(round(f))
+            else:
+                f = rng.choice([25e6, 50e6, 100e6, 125e6, 133.333e6, 148.5e6, 200e6, 300e6, 400e6, 48e6, 12.288e6, 74.25e6,
+                                float(rng.randrange(6_250_000, 800_000_001))])
+            f = min(max(f, float(flo)), float(fhi))
+            outs.append((f, p, m))
+        return {"fam": "nx", "clkin": clkin, "outs": outs, "finalize": rng.random() < 0.12}
+
+
+class NxOsc:
+    fam = "nxosc"
+
+    def __init__(self, T):
+        self.d = T["nxosc"]
+
+    def lean_line(self, c):
+        return "nxosc %s %s" % (qs(c["f"]), qs(c["m"]))
+
+    def real(self, c):
+        from litex.soc.cores.clock.lattice_nx import NXOSCA
+        try:
+            o = NXOSCA()
+            return {"status": "ok", "div": int(o.compute_divisor(c["f"], c["m"]))}
+        except Exception as e:
+            return {"status": status_of(e), "exc": repr(e)}
+
+    def parse(self, c, line):
+        return {"status": "rejected"} if line == "none" else {"status": "ok", "div": int(line.split()[1])}
+
+    def compare(self, c, real, model):
+        if real["status"] != model["status"] or real.get("div") != model.get("div"):
+            return "real=%s model=%s" % (real, model)
+        return None
+
+    def oracle(self, c, real):
+        d = self.d
+        f, m, hf = F(c["f"]), F(c["m"]), d["hf"]
+        fl = Flags()
+        exists = None
+        for dv in range(*d["div"]):
+            diff = abs(hf / (dv + 1) - f)
+            if exists is None or real.get("div", 10 ** 9) >= dv:
+                fl.cmp_le(diff, f * m, False, "margin", scale=f)
+            if diff <= f * m - SLACK * f and exists is None:
+                exists = dv
+        viol = []
+        if real["status"] == "ok":
+            dv = real["div"]
+            if not (d["div"][0] <= dv < d["div"][1]):
+                viol.append("divisor outside declared range")
+            if not (abs(hf / (dv + 1) - f) <= f * m + SLACK * f):
+                viol.append("oscillator output %s vs requested %s margin %s" % (float(hf / (dv + 1)), float(f), float(m)))
+        elif real["status"] == "rejected":
+            if exists is not None:
+                viol.append("refused although divisor %d satisfies the request" % exists)
+        else:
+            viol.append("unexpected exception " + real.get("exc", ""))
+        return viol, fl.borderline, fl.why, None
+
+    def gen(self, rng):
+        d = self.d
+        m = rng.choice([0.0, 1e-3, 1e-2, 0.05, 0.05])
+        dv = rng.randrange(0, 256)
+        u = rng.choice([0, 0, 0.5, -0.5, 0.9, -0.9, 1.2, -1.2, 3])
+        f = float(d["hf"] / (dv + 1) * (1 + F(u) * F(m)))
+        f = min(max(f, 1.76), 450e6)
+        return {"fam": "nxosc", "f": f, "m": m}
+
+
+
+# ------------------------------------------------------------------------------------------------------------------
+# Intel (best-of search)
+# ------------------------------------------------------------------------------------------------------------------
+
+class Intel:
+    fam = "intel"
+
+    def __init__(self, T):
+        self.devs = {d["name"]: d for d in T["intel"]}
+
+    def lean_line(self, c):
+        outs = " ".join("%s %s %s" % (qs(f), qs(p), qs(m)) for f, p, m in c["outs"])
+        return "intel %s %s %s %d %s" % (c["dev"], qs(c["clkin"]), qs(c["vm"]), len(c["outs"]), outs)
+
+    def real(self, c):
+        from migen import Signal
+        cls, g = c["dev"].split(":")
+        try:
+            o = mk_intel(cls, g)
+            o.vco_margin = c["vm"]
+            o.register_clkin(Signal(), c["clkin"])
+            for i, (f, p, m) in enumerate(c["outs"]):
+                o.create_clkout(mk_cd(i), f, phase=p, margin=m, with_reset=False)
+            cfg = finalize_capture(o)
+        except Exception as e:
+            return {"status": status_of(e), "exc": repr(e)}
+        P = instance_params(o, ("ALTPLL",)) or {}
+        k = len(c["outs"])
+        return {"status": "ok", "m": cfg["m"], "vco": F(cfg["vco"]),
+                "divs": [F(cfg["clk%d_divide" % n]) for n in range(k)], "freqs": [F(cfg["clk%d_freq" % n]) for n in range(k)],
+                "P": [(P.get("CLK%d_DIVIDE_BY" % n), P.get("CLK%d_MULTIPLY_BY" % n), P.get("CLK%d_PHASE_SHIFT" % n)) for n in range(k)],
+                "extra": sorted(x for x in P if x.startswith("CLK") and x.endswith("_DIVIDE_BY") and int(x[3:-10]) >= k)}
+
+    def parse(self, c, line):
+        if line == "none":
+            return {"status": "rejected"}
+        w = line.split()
+        n, m, k = int(w[1]), int(w[2]), int(w[3])
+        return {"status": "ok", "n": n, "m": m, "divs": [F(int(w[4 + 2 * i]), int(w[5 + 2 * i])) for i in range(k)]}
+
+    def compare(self, c, real, model):
+        if real["status"] != model["status"]:
+            return "status real=%s model=%s" % (real["status"], model["status"])
+        if real["status"] != "ok":
+            return None
+        if real["m"] != model["m"] or real["divs"] != model["divs"]:
+            # Exactly tied optima (the same ratio m/(c*n) written with other factors) are ordered by float noise in
+            # the real code (the dict key is a float geometric mean): accept iff both reach the same exact optimum.
+            if self.key(c, real["m"], real["divs"]) == self.key(c, model["m"], model["divs"]) != 0:
+                return None
+            return "m/divides real=(%s,%s) model=(%s,%s)" % (real["m"], real["divs"], model["m"], model["divs"])
+        if [(F(a), b) for a, b, _ in real["P"]] != [(dv, model["m"]) for dv in model["divs"]]:
+            return "instance parameters real=%s" % (real["P"],)
+        return None
+
+    def key(self, c, m, divs):
+        k = F(1)
+        for (f, p, mg), dv in zip(c["outs"], divs):
+            k *= abs(F(c["clkin"]) * m / dv - F(f)) / F(f)
+        return k
+
+    def n_range(self, d, clkin):
+        pmin, pmax = d["pfd"]
+        min_n = max(math.ceil(clkin / pmax), d["n"][0])
+        max_n = min(math.floor(clkin / pmin) + 1, d["n"][1])
+        return range(min_n, max_n)
+
+    def oracle(self, c, real):
+        d = self.devs[c["dev"]]
+        clkin, vm = F(c["clkin"]), F(c["vm"])
+        outs = [(F(f), F(p), F(m)) for f, p, m in c["outs"]]
+        lo, hi = d["vco"][0] * (1 + vm), d["vco"][1] * (1 - vm)
+        ca, cb, cs_, ck = d["c"]
+        assert cs_ == 1 and ck == 1
+        ints = is_int(clkin) and all(is_int(f) for f, _, _ in outs)
+        fl = Flags()
+        pmin, pmax = d["pfd"]
+        # the n range itself is computed with float ceil/floor of clkin/pfd
+        for q in (clkin / pmax, clkin / pmin):
+            if q.denominator != 1 and min(q - math.floor(q), math.ceil(q) - q) <= SLACK * q:
+                fl._flag("n range bound within 2^-40 of an integer")
+        cands = []          # (key product, (m, divides))
+        robust = None
+        for n in self.n_range(d, clkin):
+            m_lo = max(d["m"][0], math.ceil(lo * n / clkin) - 1)
+            m_hi = min(d["m"][1] - 1, math.floor(hi * n / clkin) + 1)
+            for m in range(m_lo, m_hi + 1):
+                vco = clkin * m / n
+                if not (fl.cmp_le(lo, vco, vm == 0, "vco>=min") and fl.cmp_le(vco, hi, vm == 0, "vco<=max")):
+                    continue
+                key = F(1)
+                divs = []
+                ok = True
+                rob = lo * (1 + SLACK) <= vco <= hi * (1 - SLACK)
+                for (f, p, mg) in outs:
+                    x = vco / f
+                    best = None
+                    for cc in (math.floor(x), math.ceil(x)):
+                        if ca <= cc < cb:
+                            diff = abs(vco / cc - f)
+                            if 0 < diff <= SLACK * f:
+                                fl._flag("output within 2^-40 of the request (float diff may be exactly 0)")
+                            if fl.cmp_le(diff, f * mg, ints and mg == 0, "margin", scale=f):
+                                if best is None or diff < best[1]:
+                                    if best is not None and abs(diff - best[1]) <= SLACK * f:
+                                        fl._flag("two dividers equally good")
+                                    best = (cc, diff)
+                                elif abs(diff - best[1]) <= SLACK * f and diff != best[1]:
+                                    fl._flag("two dividers equally good")
+                    if best is None:
+                        ok = False
+                        break
+                    if not (best[1] <= f * mg - SLACK * f or (best[1] == 0 and ints)):
+                        rob = False
+                    key *= best[1] / f
+                    divs.append(F(best[0] * n))
+                if ok:
+                    cands.append((key, (m, divs)))
+                    if rob and robust is None:
+                        robust = (n, m)
+        first = None
+        if cands:
+            bestkey = min(k for k, _ in cands)
+            winners = [cfg for k, cfg in cands if k == bestkey]
+            first = winners[-1]
+            for k, cfg in cands:
+                if k != bestkey and k - bestkey <= F(1, 10 ** 6) * k and cfg != first:
+                    fl._flag("runner-up configuration within 1e-6 of the best geometric mean")
+                    break
+            if bestkey == 0 and not ints:
+                fl._flag("exact hit with non-integer frequencies")
+        viol = []
+        if real["status"] == "ok":
+            m = real["m"]
+            if not (d["m"][0] <= m < d["m"][1]):
+                viol.append("m %s outside declared range" % m)
+            good_n = None
+            for n in self.n_range(d, clkin):
+                if all(dv % n == 0 and ca <= dv / n < cb for dv in real["divs"]):
+                    vco = clkin * m / n
+                    if lo * (1 - SLACK) <= vco <= hi * (1 + SLACK):
+                        good_n = n
+                        break
+            if good_n is None:
+                viol.append("no input divider n in the declared/PFD range explains divides %s with m=%s inside the VCO window" % (
+                    [str(x) for x in real["divs"]], m))
+            for i, ((f, p, mg), dv) in enumerate(zip(outs, real["divs"])):
+                fo = clkin * m / dv
+                if not (abs(fo - f) <= f * mg + SLACK * f):
+                    viol.append("clk%d: %s Hz vs requested %s Hz margin %s" % (i, float(fo), float(f), float(mg)))
+                if not rel_close(fo, real["freqs"][i]):
+                    viol.append("clk%d reported freq differs from clkin*m/divide" % i)
+                dby, mby, ps = real["P"][i]
+                if F(dby) != dv or mby != m:
+                    viol.append("CLK%d_DIVIDE_BY/MULTIPLY_BY = %s/%s, configuration %s/%s" % (i, dby, mby, dv, m))
+                want_ps = (F(10 ** 12) / fo) * p / 360
+                if abs(ps - want_ps) > 1:
+                    viol.append("CLK%d_PHASE_SHIFT %s ps, expected %s" % (i, ps, float(want_ps)))
+            if real["extra"]:
+                viol.append("parameters for unrequested outputs " + str(real["extra"]))
+        elif real["status"] == "rejected":
+            if robust is not None:
+                viol.append("refused although n=%s m=%s satisfies the request" % robust)
+        else:
+            viol.append("unexpected exception " + real.get("exc", ""))
+        return viol, fl.borderline, fl.why, first
+
+    def gen(self, rng, dev=None):
+        d = self.devs[dev] if dev else rng.choice(list(self.devs.values()))
+        vm = 0.0 if rng.random() < 0.9 else rng.choice([0.01, 0.05, 0.1])
+        clkin = gen_clkin(rng, 5e6, 400e6)
+        k = min(d["nmax"], rng.choice([1, 1, 1, 2, 2, 3, 4, 5]))
+        lo, hi = d["vco"][0] * (1 + F(vm)), d["vco"][1] * (1 - F(vm))
+        vco = None
+        ns = list(self.n_range(d, F(clkin)))
+        for _ in range(40):
+            if not ns:
+                break
+            n = rng.choice(ns[:4] + [rng.choice(ns)])
+            m_lo, m_hi = max(1, math.ceil(lo * n / F(clkin))), min(512, math.floor(hi * n / F(clkin)))
+            if m_lo <= m_hi:
+                vco = F(clkin) * rng.randrange(m_lo, m_hi + 1) / n
+                break
+        r = rng.random()
+        kind = "sat" if r < 0.85 else "edge" if r < 0.93 else "any"
+        edge_at = rng.randrange(k)
+        outs = []
+        for i in range(k):
+            m = rng.choice([0, 1e-6, 1e-3, 1e-2])
+            p = rng.choice([0, 0, 0, 90, 180, 270, 45, -90])
+            if vco is not None and (kind != "any" or rng.random() < 0.5):
+                cc = rng.choice([rng.randrange(1, 513), rng.randrange(1, 33), rng.randrange(2, 9)])
+                f = vco / cc
+                if kind == "edge" and i == edge_at:
+                    u = rng.choice([1, -1, 1.001, -1.001, 0.9999, -0.9999, 2.5, -2.5])
+                else:
+                    u = rng.choice([0, 0, 0, 0.5, -0.5, 0.9, -0.9])
+                if m == 0 and not is_int(f) and rng.random() < 0.9:
+                    m = 1e-6
+                f = float(f * (1 + F(u) * F(m)))
+                if m != 0 and abs(u) <= 0.9 and rng.random() < 0.9:
+                    f = float(round(f)) or 1.0
+            else:
+                f = rng.choice([25e6, 50e6, 100e6, 125e6, 133.333e6, 148.5e6, 200e6, 300e6, 48e6, 12.288e6, 74.25e6,
+                                float(rng.randrange(2_000_000, 450_000_000))])
+            outs.append((f, p, m))
+        return {"fam": "intel", "dev": d["name"], "clkin": clkin, "vm": vm, "outs": outs}
+
+
+# ------------------------------------------------------------------------------------------------------------------
+# Gowin GW1N / GW2A (+ GW1NOSC)
+# ------------------------------------------------------------------------------------------------------------------
+
+class Gw1n:
+    fam = "gw1n"
+    PINS = ["CLKOUT", "CLKOUTP", "CLKOUTD3", "CLKOUTD"]
+    ODIVS = [2, 4, 8, 16, 32, 48, 64, 80, 96, 112, 128]
+
+    def __init__(self, T):
+        self.devs = {d["name"]: d for d in T["gowin"]}
+
+    def lean_line(self, c):
+        outs = " ".join("%s %s %s" % (qs(f), qs(p), qs(m)) for f, p, m in c["outs"])
+        return "gw1n %s %s %s %d %s" % (c["dev"], qs(c["clkin"]), qs(c["vm"]), len(c["outs"]), outs)
+
+    def real(self, c):
+        from migen import Signal
+        try:
+            o = mk_gowin(c["dev"])
+            o.vco_margin = c["vm"]
+            o.register_clkin(Signal(), c["clkin"])
+            for i, (f, p, m) in enumerate(c["outs"]):
+                o.create_clkout(mk_cd(i), f, phase=p, margin=m, with_reset=False)
+            cfg = finalize_capture(o)
+        except Exception as e:
+            return {"status": status_of(e), "exc": repr(e)}
+        P = instance_params(o, ("rPLL", "PLLVR")) or {}
+        pinmap = {}
+        for pin in self.PINS:
+            sig = cfg.get(pin)
+            for i, (clk, _, _, _) in o.clkouts.items():
+                if sig is clk:
+                    pinmap[pin] = i
+        return {"status": "ok", "idiv": cfg["idiv"], "fdiv": cfg["fdiv"], "odiv": cfg["odiv"], "sdiv": cfg["SDIV_SEL"],
+                "psda": int(cfg["PSDA_SEL"], 2), "vco": F(cfg["vco"]), "pinmap": pinmap,
+                "P": {k: P.get(k) for k in ("IDIV_SEL", "FBDIV_SEL", "ODIV_SEL", "DYN_SDIV_SEL", "PSDA_SEL")}}
+
+    def parse(self, c, line):
+        w = line.split()
+        if w[0] != "ok":
+            return {"status": w[0]}
+        k = int(w[6])
+        pins = [int(x) for x in w[7:7 + k]]
+        pinmap = {}
+        for i, pn in enumerate(pins):
+            pinmap[self.PINS[pn]] = i
+        return {"status": "ok", "idiv": int(w[1]), "fdiv": int(w[2]), "odiv": int(w[3]), "sdiv": int(w[4]), "psda": int(w[5]),
+                "pinmap": pinmap}
+
+    def compare(self, c, real, model):
+        if real["status"] != model["status"]:
+            return "status real=%s (%s) model=%s" % (real["status"], real.get("exc"), model["status"])
+        if real["status"] != "ok":
+            return None
+        for k in ("idiv", "fdiv", "odiv", "sdiv", "psda", "pinmap"):
+            if real[k] != model[k]:
+                return "%s real=%s model=%s" % (k, real[k], model[k])
+        P = real["P"]
+        if (P["IDIV_SEL"], P["FBDIV_SEL"], P["ODIV_SEL"], P["DYN_SDIV_SEL"], int(P["PSDA_SEL"], 2)) != \
+                (model["idiv"] - 1, model["fdiv"] - 1, model["odiv"], model["sdiv"], model["psda"]):
+            return "instance parameters real=%s" % (P,)
+        return None
+
+    def oracle(self, c, real):
+        d = self.devs[c["dev"]]
+        clkin, vm = F(c["clkin"]), F(c["vm"])
+        outs = [(F(f), F(p), F(m)) for f, p, m in c["outs"]]
+        lo, hi = d["vco"][0] * (1 + vm), d["vco"][1] * (1 - vm)
+        pmin, pmax = d["pfd"]
+        fmax, _, mmax = max(outs, key=lambda o: o[0])
+        ints = is_int(clkin) and all(is_int(f) for f, _, _ in outs)
+        fl = Flags()
+        cands = []
+        robust = None
+        for idiv in range(1, 64):
+            pfd = clkin / idiv
+            ex = ints and int(clkin) % idiv == 0
+            if not (fl.cmp_le(pmin, pfd, ex, "pfd>=min") and fl.cmp_le(pfd, pmax, ex, "pfd<=max")):
+                continue
+            for fdiv in range(1, 64):
+                of = clkin * fdiv / idiv
+                diff = abs(of - fmax)
+                if diff > fmax * mmax * 2 + 1:
+                    continue
+                good = fl.cmp_le(diff, fmax * mmax, ints and mmax == 0, "margin", scale=fmax)
+                for odiv in self.ODIVS:
+                    vco = of * odiv
+                    if abs(vco - lo) > lo / 2 and abs(vco - hi) > hi / 2 and not (lo <= vco <= hi):
+                        continue
+                    if fl.cmp_le(lo, vco, vm == 0 and ints, "vco>=min") and fl.cmp_le(vco, hi, vm == 0 and ints, "vco<=max") and good:
+                        cands.append((diff, idiv, fdiv, odiv))
+                        if robust is None and (diff <= fmax * mmax - SLACK * fmax or (diff == 0 and ints)) and \
+                                lo * (1 + SLACK) <= vco <= hi * (1 - SLACK) and pmin * (1 + SLACK) <= pfd <= pmax * (1 - SLACK):
+                            robust = (idiv, fdiv, odiv)
+        first = None
+        if cands:
+            best = min(x[0] for x in cands)
+            first = next(x[1:] for x in cands if x[0] == best)
+            for x in cands:
+                if x[0] != best and x[0] - best <= SLACK * fmax and x[1:3] != first[0:2]:
+                    fl._flag("two candidates with nearly equal diff")
+                    break
+        # floor divisions freq_max // f on floats
+        for f, p, m in outs:
+            q = fmax / f
+            if q.denominator != 1 and min(q - math.floor(q), math.ceil(q) - q) <= SLACK * q:
+                fl._flag("freq_max // f within 2^-40 of an integer")
+        viol = []
+        if real["status"] == "ok":
+            idiv, fdiv, odiv = real["idiv"], real["fdiv"], real["odiv"]
+            if not (1 <= idiv <= 64 and 1 <= fdiv <= 64 and odiv in self.ODIVS):
+                viol.append("idiv/fdiv/odiv %s/%s/%s outside the primitive's ranges" % (idiv, fdiv, odiv))
+            else:
+                pfd = clkin / idiv
+                of = clkin * fdiv / idiv
+                vco = of * odiv
+                if not (pmin * (1 - SLACK) <= pfd <= pmax * (1 + SLACK)):
+                    viol.append("PFD %s Hz outside declared range" % float(pfd))
+                if not (lo * (1 - SLACK) <= vco <= hi * (1 + SLACK)):
+                    viol.append("VCO %s Hz outside declared range" % float(vco))
+                if not rel_close(vco, real["vco"]):
+                    viol.append("reported vco differs from clkin*fdiv/idiv*odiv")
+                inv = {}
+                for pin, i in real["pinmap"].items():
+                    inv.setdefault(i, []).append(pin)
+                for i, (f, p, m) in enumerate(outs):
+                    for pin in inv.get(i, []):
+                        fo = of if pin in ("CLKOUT", "CLKOUTP") else of / 3 if pin == "CLKOUTD3" else of / real["sdiv"] if real["sdiv"] else None
+                        # the code's own acceptance test is |r - f| <= r*m (relative to the obtained frequency)
+                        if fo is None or not (abs(fo - f) <= max(f, fo) * m + SLACK * f):
+                            viol.append("clock %d on %s: %s Hz vs requested %s Hz margin %s" % (
+                                i, pin, None if fo is None else float(fo), float(f), float(m)))
+                P = real["P"]
+                if (P["IDIV_SEL"], P["FBDIV_SEL"], P["ODIV_SEL"], P["DYN_SDIV_SEL"]) != (idiv - 1, fdiv - 1, odiv, real["sdiv"]):
+                    viol.append("instance parameters %s do not equal the configuration" % (P,))
+        elif real["status"] == "rejected":
+            if "No PLL config found" in real.get("exc", "") and robust is not None:
+                viol.append("refused although idiv=%s fdiv=%s odiv=%s satisfies the request" % robust)
+        elif real["status"] == "assertion":
+            pass
+        else:
+            viol.append("unexpected exception " + real.get("exc", ""))
+        return viol, fl.borderline, fl.why, first
+
+    def first_key(self, real):
+        return (real["idiv"], real["fdiv"], real["odiv"])
+
+    def gen(self, rng, dev=None):
+        d = self.devs[dev] if dev else rng.choice(list(self.devs.values()))
+        vm = 0.0 if rng.random() < 0.9 else rng.choice([0.01, 0.05])
+        clkin = gen_clkin(rng, 3e6, 400e6)
+        r = rng.random()
+        k = rng.choice([1, 1, 2, 2, 3, 4])
+        base = None
+        for _ in range(40):
+            idiv = rng.choice([1, 1, 1, 2, 3, 4, rng.randrange(1, 64)])
+            fdiv = rng.randrange(1, 64)
+            of = F(clkin) * fdiv / idiv
+            if d["pfd"][0] <= F(clkin) / idiv <= d["pfd"][1] and any(d["vco"][0] <= of * od <= d["vco"][1] for od in self.ODIVS):
+                base = of
+                break
+        outs = []
+        m0 = rng.choice([0, 1e-6, 1e-3, 1e-2])
+        divs = [1] + [rng.choice([1, 2, 3, 3, 4, 6, 8, 5, 128, rng.randrange(2, 130)]) for _ in range(k - 1)]
+        if rng.random() < 0.5:
+            rng.shuffle(divs)
+        phase_pool = [0, 0, 0, rng.choice([90, 180, 45, 22.5, 270, 337.5])] if rng.random() < 0.85 else [0, 90, 180]
+        for i in range(k):
+            m = m0 if rng.random() < 0.7 else rng.choice([0, 1e-6, 1e-3, 1e-2])
+            p = rng.choice(phase_pool)
+            if base is not None and r < 0.9:
+                f = base / divs[i]
+                u = rng.choice([0, 0, 0, 0.5, -0.5, 0.9, -0.9, 1.001, -1.001]) if r > 0.75 else rng.choice([0, 0, 0.5, -0.5])
+                if m == 0 and not is_int(f):
+                    m = 1e-6
+                f = float(f * (1 + F(u) * F(m)))
+                if m != 0 and abs(u) <= 0.9 and rng.random() < 0.5:
+                    f = float(round(f)) or 1.0
+            else:
+                f = rng.choice([27e6, 54e6, 108e6, 50e6, 100e6, 25e6, 125e6, 36e6, 72e6, float(rng.randrange(3_000_000, 400_000_000))])
+            outs.append((f, p, m))
+        return {"fam": "gw1n", "dev": d["name"], "clkin": clkin, "vm": vm, "outs": outs}
+
+
+class GwOsc:
+    fam = "gwosc"
+    DEVS = ["GW1N-4", "GW1NR-4B", "GW1N-9", "GW1NR-9C", "GW2A-18"]
+
+    def __init__(self, T):
+        self.d = T["gwosc"]
+
+    def osc(self, c):
+        return F(210e6) if c["device"] in ["GW1N-4", "GW1NR-4", "GW1N-4B", "GW1NR-4B", "GW1NRF-4B", "GW1N-4C", "GW1NR-4C"] else F(250e6)
+
+    def lean_line(self, c):
+        return "gwosc %s %s %s" % (qs(self.osc(c)), qs(c["f"]), qs(c["m"]))
+
+    def real(self, c):
+        from litex.soc.cores.clock.gowin_gw1n import GW1NOSC
+        try:
+            o = GW1NOSC(c["device"], c["f"], margin=c["m"])
+            P = instance_params(o, ("OSC",)) or {}
+            return {"status": "ok", "div": P.get("FREQ_DIV"), "dev": P.get("DEVICE")}
+        except Exception as e:
+            return {"status": status_of(e), "exc": repr(e)}
+
+    def parse(self, c, line):
+        return {"status": "rejected"} if line == "none" else {"status": "ok", "div": int(line.split()[1])}
+
+    def compare(self, c, real, model):
+        if real["status"] != model["status"] or real.get("div") != model.get("div"):
+            return "real=%s model=%s" % (real, model)
+        return None
+
+    def oracle(self, c, real):
+        f, m, osc = F(c["f"]), F(c["m"]), self.osc(c)
+        fl = Flags()
+        exists = None
+        for dv in range(*self.d["div"]):
+            cf = osc / dv
+            fl.cmp_le(f * (1 - m), cf, False, "lower edge")
+            fl.cmp_le(cf, f * (1 + m), False, "upper edge")
+            if f * (1 - m) * (1 + SLACK) <= cf <= f * (1 + m) * (1 - SLACK):
+                exists = dv
+        viol = []
+        if real["status"] == "ok":
+            dv = real["div"]
+            if not (self.d["div"][0] <= dv < self.d["div"][1]):
+                viol.append("divider outside declared range")
+            elif not (abs(osc / dv - f) <= f * m + SLACK * f):
+                viol.append("oscillator output %s vs requested %s margin %s" % (float(osc / dv), float(f), float(m)))
+        elif real["status"] == "rejected":
+            if exists is not None:
+                viol.append("refused although divider %d satisfies the request" % exists)
+        else:
+            viol.append("unexpected exception " + real.get("exc", ""))
+        return viol, fl.borderline, fl.why, None
+
+    def gen(self, rng):
+        m = rng.choice([1e-3, 1e-2, 1e-2, 0.05])
+        device = rng.choice(self.DEVS)
+        osc = self.osc({"device": device})
+        dv = rng.randrange(2, 130)
+        u = rng.choice([0, 0, 0.5, -0.5, 0.9, -0.9, 1.2, -1.2, 3])
+        f = float(osc / dv * (1 + F(u) * F(m)))
+        return {"fam": "gwosc", "device": device, "f": f, "m": m}
+
+
 Xilinx.first_key = lambda self, real: (real["divclk"], real["mult"])
-FAMILY_CLASSES = [Xilinx, Ecp5]
+FAMILY_CLASSES = [Xilinx, Ecp5, Ice40, Nx, NxOsc, Intel, Gw1n, GwOsc]
